@@ -364,7 +364,14 @@ fn execute(prog: Program) -> Outcome {
                 let mut want: BTreeMap<String, u8> = BTreeMap::new();
                 for r in all.iter() {
                     if r.time >= s {
-                        want.insert(format!("{}_{}", r.db, r.key), r.op);
+                        // create-db and snapshot records concern the database (they are written with
+                        // the fixed key ids 1 and 2), every other record concerns its (database, key)
+                        let k = match r.op {
+                            2 => format!("{}_create_db", r.db),
+                            3 => format!("{}_snapshot", r.db),
+                            _ => format!("{}_{}", r.db, r.key),
+                        };
+                        want.insert(k, r.op);
                     }
                 }
                 let files = format!("{}:{}", if nfiles > 0 { "multi" } else { "single" }, class);
@@ -428,7 +435,7 @@ impl Property for C12 {
         vec![("short", 2), ("long", 1)]
     }
     fn budget(&self) -> (u64, u64) {
-        (20_000, 600_000)
+        (40_000, 1_000_000)
     }
     fn rule(&self) -> &'static str {
         "logs produced by the real replication loop from 1-14 (short) or 20-60 (long, with bursts of 5-60 writes) operations of {set,remove,create-db,snapshot} over 2-5 databases x 3 keys, with simulated-clock gaps, optional coarse clock (equal consecutive op ids), real rotation (NUN_MAX_OP_LOG_SIZE per worker in {500,2500,10000,default}), real declutter retention and restarts; queries with since in {0, before first, record time -1/0/+1, after last} and last_op_time are compared with a linear scan of the same files. Non-trivial: at least one query ran on a non-empty log. distinct = distinct programs x worker knob."
